@@ -46,9 +46,10 @@ PROPS = {
     ),
     "C03": dict(
         modules=["GraphSlam.Props.C03"],
-        theorem_files=["GraphSlam/Props/C03/*.lean", "GraphSlam/Props/E2E/Step.lean"],
-        scan_files=["GraphSlam/Real/Instance.lean", "GraphSlam/Core/*.lean", "GraphSlam/Model/Assembly.lean", "GraphSlam/Model/GraphIter.lean", "GraphSlam/Props/C06/*.lean"],
+        theorem_files=["GraphSlam/Props/Tie/GraphPy.lean", "GraphSlam/Props/C03/*.lean", "GraphSlam/Props/E2E/Step.lean"],
+        scan_files=["GraphSlam/Generated/GraphPy.lean", "GraphSlam/Real/Instance.lean", "GraphSlam/Core/*.lean", "GraphSlam/Model/Assembly.lean", "GraphSlam/Model/GraphIter.lean", "GraphSlam/Props/C06/*.lean"],
         needs_generated=True,
+        graph_tie=True,
         corr=[
             ("harness.entry", "assembly", dict(quick=80, thorough=3000)),
             ("harness.entry", "graphiter", dict(quick=60, thorough=2500)),
@@ -72,12 +73,15 @@ PROPS = {
     ),
     "C04": dict(
         modules=["GraphSlam.Props.C04"],
-        theorem_files=["GraphSlam/Props/C04/*.lean", "GraphSlam/Theory/GaussNewton.lean"],
-        scan_files=["GraphSlam/Core/*.lean", "GraphSlam/Real/Instance.lean", "GraphSlam/Props/C12/*.lean", "GraphSlam/Props/C03/*.lean"],
+        theorem_files=["GraphSlam/Props/Tie/GraphPy.lean", "GraphSlam/Props/C04/*.lean", "GraphSlam/Theory/GaussNewton.lean"],
+        scan_files=["GraphSlam/Generated/GraphPy.lean", "GraphSlam/Core/*.lean", "GraphSlam/Real/Instance.lean", "GraphSlam/Props/C12/*.lean", "GraphSlam/Props/C03/*.lean"],
+        graph_tie=True,
         corr=[
             ("harness.entry", "layer_a", dict(only=["EdgeOdometry.calc_error_R", "EdgeOdometry.calc_jacobians_R", "EdgeLandmark.calc_error_R", "EdgeLandmark.calc_jacobians_R", "PoseR"], quick=40, thorough=400)),
             ("harness.entry", "assembly", dict(quick=60, thorough=2000)),
             ("harness.entry", "ctl", dict(quick=(30, 200), thorough=(800, 10000))),
+            ("harness.entry", "graphiter", dict(quick=40, thorough=1500)),
+            ("harness.entry", "fullrun", dict(quick=40, thorough=1500)),
         ],
         search=("search.entry", "c04"),
         always_search=True,
@@ -86,16 +90,21 @@ PROPS = {
         "(odometry and point-to-point landmark edges with offsets, multi-edges, random fixed subsets, initial guesses perturbed by up to 1e6) vs numpy.linalg.lstsq on the whitened stacked system: poses, final_chi2, converged",
         assumptions=["real arithmetic; conditioning is a runtime matter (tolerances scale with the initial-guess magnitude; rank-deficient instances are counted and skipped)",
                      "spsolve returns a solution of the assembled system", "symmetric positive-definite information; distinct vertices per edge"],
-        technique="Lean 4 proof: affine-residual lemmas on the regenerated R^n edge definitions + abstract Gauss-Newton matrix theory (Mathlib) + C03's assembly theorem + C12's report theorem",
-        level_text="Proved: R^2/R^3 edge errors are exactly affine in the box-plus increments with the constant matrices calc_jacobians returns; any solution of the assembled system minimises chi2 over all increments keeping fixed vertices fixed, uniquely when the reduced Hessian is PD; "
-        "connected graph + a fixed vertex + PD information => no non-zero zero-energy increment (reduced Hessian PD); after the first step the free gradient vanishes so every later step is zero, hence the chi2 sequence is constant and final_chi2 is the minimum, converged=True for max_iter>=2, tol>0. "
-        "The glue (stacked J-bar of C03 = the J of the theory) is by the theorems' shared definitions, not one end-to-end statement.",
-        level_note="Composition of C01/C03/C12 theorems with code-independent matrix theory; the end-to-end behaviour is additionally explored against numpy lstsq every run.",
+        technique="Lean 4 proof: end-to-end theorem on the model of a whole optimize() call: exact linearisation of the regenerated R^n edge definitions, quadratic expansion over edge lists tied to the dense H/b by C03's assembly theorems, kernel triviality from connectivity, C12's report theorem",
+        level_text="Proved END TO END on the typed-graph model of a whole optimize() call (Model.optimizeSolve, tied by tools/harness/fullrun.py; Props/C04/{Quad,Affine,Increment,Minimise,Unique,EndToEnd,Instances}.lean), for R^2 and R^3 graphs with every built-in edge class: "
+        "(a) chi2_after_increment: the true chi2 of the state moved by ANY increment equals the linearised chi2 sum (e+Jd)^T Omega (e+Jd) over the edges' own generated errors/Jacobians (the linearisation is exact); "
+        "(b) gn_step_minimises: any solution of the dense system the code hands to spsolve minimises the true chi2 over all increments (symmetric PSD information); "
+        "(c) gn_step_unique / exists_solution / minimiser_unique: with PD information and every vertex joined through edges to a fixed one the dense system has exactly one solution and the minimising state is unique; "
+        "(d) gradient_after_step / second_step_zero / chi2Seq_const: after one exact step b vanishes, every later step is zero, the chi2 sequence is constant from index 1; "
+        "(e) optimize_linear_optimum(_R2/_R3): for any exact solver, max_iter>=1, any tol/eps/flags/initial guess the call returns the state after one Gauss-Newton step, final_chi2 is its true chi2, that state is the global and unique minimiser among all states agreeing on the fixed vertices, converged=True for max_iter>=2, tol>0, and num_iterations<=2. "
+        "Also kept: the affine-residual lemmas, connected_fixed_pd, the constant-tail report lemmas.",
+        level_note="The former gap (stacked J-bar of C03 = the J of the theory, 'by shared definitions') is closed: the theorems are about Model.system / step / optimizeSolve themselves. Solver exactness is a hypothesis (existence of a solution is proved); real arithmetic. End-to-end behaviour is additionally explored against numpy lstsq every run.",
     ),
     "C05": dict(
         modules=["GraphSlam.Props.C05"],
-        theorem_files=["GraphSlam/Props/C05/*.lean", "GraphSlam/Theory/GaussNewton.lean"],
-        scan_files=["GraphSlam/Core/*.lean", "GraphSlam/Real/*.lean", "GraphSlam/Props/C12/*.lean"],
+        theorem_files=["GraphSlam/Props/Tie/GraphPy.lean", "GraphSlam/Props/C05/*.lean", "GraphSlam/Theory/GaussNewton.lean"],
+        scan_files=["GraphSlam/Generated/GraphPy.lean", "GraphSlam/Core/*.lean", "GraphSlam/Real/*.lean", "GraphSlam/Props/C12/*.lean"],
+        graph_tie=True,
         corr=[
             ("harness.entry", "assembly", dict(quick=60, thorough=2000)),
             ("harness.entry", "ctl", dict(quick=(30, 200), thorough=(800, 10000))),
@@ -115,8 +124,9 @@ PROPS = {
     ),
     "C06": dict(
         modules=["GraphSlam.Props.C06"],
-        theorem_files=["GraphSlam/Props/C06/*.lean", "GraphSlam/Props/C03/Assembled.lean", "GraphSlam/Props/E2E/Step.lean"],
-        scan_files=["GraphSlam/Core/*.lean", "GraphSlam/Model/Assembly.lean", "GraphSlam/Model/GraphIter.lean", "GraphSlam/Props/C03/*.lean"],
+        theorem_files=["GraphSlam/Props/Tie/GraphPy.lean", "GraphSlam/Props/C06/*.lean", "GraphSlam/Props/C03/Assembled.lean", "GraphSlam/Props/E2E/Step.lean"],
+        scan_files=["GraphSlam/Generated/GraphPy.lean", "GraphSlam/Core/*.lean", "GraphSlam/Model/Assembly.lean", "GraphSlam/Model/GraphIter.lean", "GraphSlam/Props/C03/*.lean"],
+        graph_tie=True,
         corr=[("harness.entry", "assembly", dict(quick=80, thorough=3000)), ("harness.entry", "graphiter", dict(quick=60, thorough=2500))],
         search=("search.entry", "c06"),
         always_search=True,
@@ -133,8 +143,9 @@ PROPS = {
     ),
     "C12": dict(
         modules=["GraphSlam.Props.C12"],
-        theorem_files=["GraphSlam/Props/C12/*.lean", "GraphSlam/Props/E2E/Run.lean"],
-        scan_files=["GraphSlam/Core/*.lean", "GraphSlam/Model/Ctl.lean", "GraphSlam/Model/Run.lean", "GraphSlam/Model/GraphIter.lean", "GraphSlam/Model/Assembly.lean", "GraphSlam/Props/C06/*.lean"],
+        theorem_files=["GraphSlam/Props/Tie/GraphPy.lean", "GraphSlam/Props/C12/*.lean", "GraphSlam/Props/E2E/Run.lean"],
+        scan_files=["GraphSlam/Generated/GraphPy.lean", "GraphSlam/Core/*.lean", "GraphSlam/Model/Ctl.lean", "GraphSlam/Model/Run.lean", "GraphSlam/Model/GraphIter.lean", "GraphSlam/Model/Assembly.lean", "GraphSlam/Props/C06/*.lean"],
+        graph_tie=True,
         corr=[("harness.entry", "ctl", dict()), ("harness.entry", "fullrun", dict(quick=60, thorough=2500))],
         search=("search.entry", "c12"),
         always_search=True,
@@ -150,8 +161,9 @@ PROPS = {
     ),
     "C15": dict(
         modules=["GraphSlam.Props.C15"],
-        theorem_files=["GraphSlam/Props/C15/*.lean"],
-        scan_files=["GraphSlam/Core/*.lean", "GraphSlam/Model/NumJac.lean", "GraphSlam/Model/Assembly.lean", "GraphSlam/Props/C16/*.lean", "GraphSlam/Props/C06/*.lean"],
+        theorem_files=["GraphSlam/Props/Tie/GraphPy.lean", "GraphSlam/Props/C15/*.lean"],
+        scan_files=["GraphSlam/Generated/GraphPy.lean", "GraphSlam/Core/*.lean", "GraphSlam/Model/NumJac.lean", "GraphSlam/Model/Assembly.lean", "GraphSlam/Props/C16/*.lean", "GraphSlam/Props/C06/*.lean"],
+        graph_tie=True,
         corr=[("harness.entry", "purity", dict()), ("harness.entry", "numjac", dict(quick=25, thorough=800))],
         search=("search.entry", "c15"),
         always_search=True,
@@ -169,8 +181,9 @@ PROPS = {
     ),
     "C16": dict(
         modules=["GraphSlam.Props.C16"],
-        theorem_files=["GraphSlam/Props/C16/*.lean"],
-        scan_files=["GraphSlam/Core/*.lean", "GraphSlam/Model/NumJac.lean", "GraphSlam/Real/Instance.lean"],
+        theorem_files=["GraphSlam/Props/Tie/GraphPy.lean", "GraphSlam/Props/C16/*.lean"],
+        scan_files=["GraphSlam/Generated/GraphPy.lean", "GraphSlam/Core/*.lean", "GraphSlam/Model/NumJac.lean", "GraphSlam/Real/Instance.lean"],
+        graph_tie=True,
         corr=[("harness.entry", "numjac", dict(quick=40, thorough=1500))],
         search=("search.entry", "c16"),
         always_search=True,
@@ -187,8 +200,9 @@ PROPS = {
     ),
     "C07": dict(
         modules=["GraphSlam.Props.C07"],
-        theorem_files=["GraphSlam/Props/C07/*.lean", "GraphSlam/Props/E2E/Frame.lean", "GraphSlam/Theory/GaussNewton.lean"],
-        scan_files=["GraphSlam/Core/*.lean", "GraphSlam/Real/*.lean", "GraphSlam/Props/C09/*.lean", "GraphSlam/Props/C01/*.lean", "GraphSlam/Props/C10/*.lean", "GraphSlam/Model/Assembly.lean", "GraphSlam/Model/GraphIter.lean", "GraphSlam/Model/Run.lean", "GraphSlam/Model/Ctl.lean", "GraphSlam/Props/C06/*.lean"],
+        theorem_files=["GraphSlam/Props/Tie/GraphPy.lean", "GraphSlam/Props/C07/*.lean", "GraphSlam/Props/E2E/Frame.lean", "GraphSlam/Theory/GaussNewton.lean"],
+        scan_files=["GraphSlam/Generated/GraphPy.lean", "GraphSlam/Core/*.lean", "GraphSlam/Real/*.lean", "GraphSlam/Props/C09/*.lean", "GraphSlam/Props/C01/*.lean", "GraphSlam/Props/C10/*.lean", "GraphSlam/Model/Assembly.lean", "GraphSlam/Model/GraphIter.lean", "GraphSlam/Model/Run.lean", "GraphSlam/Model/Ctl.lean", "GraphSlam/Props/C06/*.lean"],
+        graph_tie=True,
         corr=[("harness.entry", "layer_a", dict(only=["Edge", "Pose", "Util"], quick=25, thorough=400)), ("harness.entry", "assembly", dict(quick=40, thorough=1500)), ("harness.entry", "graphiter", dict(quick=60, thorough=2500)), ("harness.entry", "fullrun", dict(quick=40, thorough=1500))],
         search=("search.entry", "c07"),
         always_search=True,
@@ -208,9 +222,10 @@ PROPS = {
     ),
     "C08": dict(
         modules=["GraphSlam.Props.C08"],
-        theorem_files=["GraphSlam/Props/C08/*.lean", "GraphSlam/Props/E2E/Step.lean"],
-        scan_files=["GraphSlam/Core/*.lean", "GraphSlam/Real/Instance.lean", "GraphSlam/Props/C03/*.lean", "GraphSlam/Theory/*.lean", "GraphSlam/Model/Assembly.lean", "GraphSlam/Model/GraphIter.lean", "GraphSlam/Props/C06/*.lean"],
-        corr=[("harness.entry", "layer_a", dict(only=["Edge", "PoseSE3", "PoseSE2", "Util"], quick=25, thorough=400)), ("harness.entry", "assembly", dict(quick=40, thorough=1500))],
+        theorem_files=["GraphSlam/Props/Tie/GraphPy.lean", "GraphSlam/Props/C08/*.lean", "GraphSlam/Props/E2E/Step.lean", "GraphSlam/Props/E2E/Relabel.lean", "GraphSlam/Props/E2E/VertexPerm*.lean"],
+        scan_files=["GraphSlam/Generated/GraphPy.lean", "GraphSlam/Model/Validity.lean", "GraphSlam/Model/Run.lean", "GraphSlam/Model/Ctl.lean", "GraphSlam/Props/E2E/Run.lean", "GraphSlam/Props/C12/*.lean", "GraphSlam/Core/*.lean", "GraphSlam/Real/Instance.lean", "GraphSlam/Props/C03/*.lean", "GraphSlam/Theory/*.lean", "GraphSlam/Model/Assembly.lean", "GraphSlam/Model/GraphIter.lean", "GraphSlam/Props/C06/*.lean"],
+        graph_tie=True,
+        corr=[("harness.entry", "layer_a", dict(only=["Edge", "PoseSE3", "PoseSE2", "Util"], quick=25, thorough=400)), ("harness.entry", "assembly", dict(quick=40, thorough=1500)), ("harness.entry", "graphiter", dict(quick=40, thorough=1500)), ("harness.entry", "fullrun", dict(quick=30, thorough=1000))],
         search=("search.entry", "c08"),
         always_search=True,
         replay=("search.entry", "replay_generic"),
@@ -218,10 +233,9 @@ PROPS = {
         "+2*pi*k on SE(2) angles, negated quaternions of vertices / measurements / offsets, information scaled by c in [1e-3,1e3], edges split into two half-information copies: chi2 (scaled) and poses after 1..3 iterations compared",
         assumptions=["real arithmetic", "odometry quaternion-sign clause only for information matrices without translation-rotation cross terms (counterexample proved otherwise: known finding)"],
         proved_level="partial",
-        unproved=["negating a unit quaternion of an SE(3) odometry edge's measurement or vertex changes chi2 when the information matrix has translation-rotation cross terms: FALSE of the code (neg_quat_cross_counterexample; known finding quat-sign:odometry:cross-terms)",
-                  "vertex-list permutation and id relabelling are covered by C03 (arbitrary layout), Theory.reparam_solves and C18 (binding by id) rather than by one dedicated theorem"],
+        unproved=["negating a unit quaternion of an SE(3) odometry edge's measurement or vertex changes chi2 when the information matrix has translation-rotation cross terms: FALSE of the code (neg_quat_cross_counterexample; known finding quat-sign:odometry:cross-terms)"],
         technique="Lean 4 proof: permutation-invariance of list sums for the accumulated dictionaries, linearity in Omega, ring identities for quaternion negation on the regenerated error definitions, counterexample by norm_num",
-        level_text="Proved: edge-list permutation leaves the accumulated H-, b-dictionaries and chi2 unchanged; theta+2*pi*k constructs the same SE(2) pose; H/b contributions are linear in Omega (split and scale), scaling leaves the solution set of the assembled system unchanged and scales chi2; "
+        level_text="Proved on the typed-graph model of a whole optimize() call (Props/E2E/Relabel.lean, VertexPerm*.lean): id relabelling by any injective map leaves the id->position lookup (last duplicate wins), the edge binding, the constructor and hence the whole run literally unchanged (counterexample for non-injective maps); vertex-list permutation (edges re-bound, flags permuted alike): chi2 unchanged, the dense H and b correspond entry by entry under the re-indexing of gradient indices, dx solves one system iff the re-indexed dx solves the other, the updated states correspond, and - for an exact solver and uniquely solvable visited systems - the trajectories and the WHOLE CALL agree (same report, corresponding returned states: optimizeSolve_vertexPerm; optimizeRun_vertexPerm for recorded increments with no solver hypothesis); fix_first_pose=True with the first vertex moved is excluded with a proved counterexample (it fixes a different vertex). Also proved: edge-list permutation leaves the accumulated H-, b-dictionaries and chi2 unchanged; theta+2*pi*k constructs the same SE(2) pose; H/b contributions are linear in Omega (split and scale), scaling leaves the solution set of the assembled system unchanged and scales chi2; "
         "landmark errors are invariant under negating the pose or offset quaternion; odometry errors keep the translational part and negate the rotational part, so chi2 is unchanged for information without cross terms. "
         "PARTIAL: with cross terms the clause is false of the current code (proved counterexample, recorded known finding).",
         level_note="Known finding printed on every run; any other dependence on representation is reported as a violation.",
@@ -247,21 +261,24 @@ PROPS = {
     "C11": dict(
         modules=["GraphSlam.Props.C11"],
         theorem_files=["GraphSlam/Props/C11/*.lean", "GraphSlam/Props/C09/SE2.lean", "GraphSlam/Real/Wrap.lean"],
-        scan_files=["GraphSlam/Real/*.lean", "GraphSlam/Core/*.lean", "GraphSlam/Props/C09/SE3.lean"],
-        corr=[("harness.entry", "layer_a", dict(only=["Pose", "Util"], quick=25, thorough=400))],
+        scan_files=["GraphSlam/Real/*.lean", "GraphSlam/Core/*.lean", "GraphSlam/Props/C09/SE3.lean", "GraphSlam/Model/GraphIter.lean", "GraphSlam/Model/Run.lean", "GraphSlam/Model/Ctl.lean", "GraphSlam/Model/Assembly.lean"],
+        corr=[("harness.entry", "layer_a", dict(only=["Pose", "Util"], quick=25, thorough=400)), ("harness.entry", "graphiter", dict(quick=30, thorough=800))],
         search=("search.entry", "c11"),
         always_search=True,
         replay=("search.entry", "replay_generic"),
         rule="translator validation as C09; plus (exploration, every run) linear operation histories on the real objects: |q|-1 within 2e-15*(steps+10), angle in [-pi,pi], "
         "wrap congruent to the 50-digit reference within 4 ulp, normalize() unit / w>=0 / same rotation",
-        assumptions=["real arithmetic for the theorems; 'up to accumulated rounding' is measured on the real code every run, not proved"],
+        assumptions=["exact-arithmetic theorems over the reals", "rounding theorems: the standard model of floating-point arithmetic (every operation returns x(1+d), |d|<=u; no overflow/underflow/subnormals) is a HYPOTHESIS (StdRnd); IEEE-754 itself is not modelled"],
         proved_level="partial",
-        unproved=["float rounding: accumulated norm drift and the closed upper end (+pi) of the float wrap are measured by the chain exploration, not proved"],
-        technique="Lean 4 proof: invariant by induction over an inductive type of operation histories (Reach), wrap range/congruence lemmas; float drift measured",
+        unproved=["the closed upper end (+pi) of the float wrap (a % b in floats can return b) is measured by the chain exploration, not proved",
+                  "IEEE-754 arithmetic itself: the norm-drift bounds are proved under the standard model of rounding, which is assumed, and also measured on the real code every run"],
+        technique="Lean 4 proof: invariant by induction over an inductive type of operation histories (Reach / ReachApprox / ReachFl), wrap range/congruence lemmas; norm drift bounded under the standard model of rounding by running the regenerated definitions in a rounding scalar instance (Fl rnd)",
         level_text="Proved for histories of any length: every PoseSE2 constructor/(+)/(-)/inverse/[+]/copy result has its angle in [-pi,pi) and congruent mod 2pi to the exact angle; "
         "the quaternion norm is multiplicative under (+),(-), preserved by inverse/copy, box-plus returns a unit quaternion for every increment (both branches), hence any Reach-able pose and any vertex after n updates is unit; "
-        "normalize() gives unit norm, w>=0 and the same rotation. PARTIAL: exact arithmetic only.",
-        level_note="Partial: rounding is outside the theorems; measured by operation chains on the real code each run (quick 2 types x 4 chains x 2500 ops).",
+        "normalize() gives unit norm, w>=0 and the same rotation. Rounding (Props/C11/Rounding*.lean): norm identities for ALL real operands; one computed operation within eta of exact keeps the norm within (1+-eta); chain_bounds / chain_linear for histories of any length; "
+        "the regenerated PoseSE3.add / sub / boxplus / normalize executed in a rounding instance of the scalar interface (Fl rnd, every operation rounded, standard model |rnd x - x| <= u|x|) satisfy eta = 2((1+u)^4-1); iterate_boxplus_fl: |norm-1| <= 37 n u after n optimizer updates (<= 4.2e-15 n in binary64); "
+        "run_fl_se3_drift / optimizeSolve_fl_se3_drift: the same bound for every SE(3) vertex of the state returned by the whole-call model with ANY solver. PARTIAL: the standard model is assumed; the float wrap closed end is measured.",
+        level_note="Rounding is inside the theorems under the standard model (an assumption about the hardware arithmetic); still measured by operation chains on the real code each run (quick 2 types x 4 chains x 2500 ops).",
     ),
     "C10": dict(
         modules=["GraphSlam.Props.C10"],
